@@ -245,9 +245,9 @@ func (fg *FnGen) doCall(fr *Frame, site ssa.Instruction, c *ssa.CallCommon, st *
 		argTypes = append(argTypes, a.Type())
 	}
 	// monitors: before
-	fg.monitorBefore(fr, d, args, st, reach, pos)
+	fg.monitorBefore(fr, d, args, argTypes, st, reach, pos)
 	res, st2 := fg.dispatchCall(fr, site, c, d, args, argTypes, st, reach, pos, name)
-	st2 = fg.monitorAfter(fr, d, args, res, st2, reach)
+	st2 = fg.monitorAfter(fr, d, args, res, argTypes, st2, reach)
 	return res, st2
 }
 
@@ -293,7 +293,7 @@ func (fg *FnGen) dispatchCall(fr *Frame, site ssa.Instruction, c *ssa.CallCommon
 	}
 	// unknown callee: results arbitrary, heap arbitrary
 	fg.note("call to " + d.short + " havocs the heap (no contract, not inlineable, not on the effects list)")
-	return fg.freshResults(fr, name, d.sig), fg.havocAll(st)
+	return fg.freshResults(fr, name, d.sig), fg.havocCall(st, reach)
 }
 
 func (fg *FnGen) onStack(fr *Frame, f *ssa.Function) bool {
@@ -463,7 +463,7 @@ func (fg *FnGen) applyContract(fr *Frame, ct *Contract, d callDesc, args []*Term
 				fg.set(st2, "MemB", hs, mem)
 			}
 		} else {
-			st2 = fg.havocAll(st)
+			st2 = fg.havocCall(st, reach)
 		}
 	}
 	res := fg.freshResults(fr, name, d.sig)
@@ -479,6 +479,9 @@ func (fg *FnGen) applyContract(fr *Frame, ct *Contract, d callDesc, args []*Term
 	for _, e := range ct.Ensures {
 		v, err := env2.evalBool(e.Expr)
 		if err != nil {
+			if mentionsCalleeGhost(ct, err) {
+				continue // a clause over the callee's own ghost trace is not visible to callers
+			}
 			fg.bindFailure(fmt.Sprintf("post@%s:%s", d.short, e.Label), err, pos)
 			continue
 		}
@@ -907,7 +910,7 @@ func (fg *FnGen) monitorSend(fr *Frame, x *ssa.Send, st *State, reach *Term) {
 		d.short = "send:" + p.Name()
 	}
 	d.full = d.short
-	fg.monitorBefore(fr, d, []*Term{fg.val(fr, x.X)}, st, reach, x.Pos())
+	fg.monitorBefore(fr, d, []*Term{fg.val(fr, x.X)}, []types.Type{x.X.Type()}, st, reach, x.Pos())
 }
 
 // sprintf models fmt.Sprintf exactly for literal formats made of text, %s / %v on string operands and %d / %v on
